@@ -102,6 +102,9 @@ func cmdIntro(args []string) {
 				}
 			}()
 			obs["desc"] = d
+			if _, ok := obs["panic"]; !ok {
+				obs["panic"] = ""
+			}
 			enc.Encode(obs)
 			n++
 		}
